@@ -15,7 +15,7 @@
 (*   norm        names the harness classifies as normalisation parameters (only selects which    *)
 (*               clause reports a loss; every surviving tensor must keep its cells)              *)
 (*   ob          implementation-side obligations measured on the post-state:                     *)
-(*               rebuild  type(m)(**m.init_dict).load_state_dict(m.state_dict(), strict=True)    *)
+(*               rebuild  rebuilt = type(m) called with m.init_dict; rebuilt.load_state_dict(.., strict) *)
 (*               forward  batches of 1..3 observations -> finite outputs of the declared shape   *)
 (*               samefn   outputs on 3 probe batches bit-equal before / after                    *)
 (*               clone    clone() reproduces the outputs bit-exactly on 3 probe batches          *)
@@ -67,8 +67,9 @@ C04Clauses ==
      /\ Check("every surviving normalisation weight keeps its value on the common index range",
               \A n \in DOMAIN K : IsNorm(n) => (n \in DOMAIN Ev.kept /\ Ev.kept[n] = K[n]))
 
-\* steps C04 does not judge (raised / not a step of the specification): consumed without clauses
-C04Skip == Ev.raised # "" \/ Allowed = {}
+\* steps C04 does not judge: the call raised, or it is not a step of the specification, or the code itself reports
+\* another applied method than the specification allows (all C03's business): consumed without clauses
+C04Skip == Ev.raised # "" \/ ~(\E r \in Allowed : r.applied = Ev.applied)
 
 TInit == /\ tid \in 1..Len(Traces) /\ l = 1
          /\ arch = Traces[tid].ev[1].pre
